@@ -24,29 +24,31 @@ Notation keysN u fuel := (keys unit nc_find nc_store cfg_nc u fuel (fun _ _ => t
     through the history; [ref_op] is the cache-free reference, each operation on its own.
     Hypothesis [hist_ok]: each operation's expression is covered for the operation's dictionary
     ([scoh], all about the cache-free semantics): every constructor except Map, Template nodes,
-    AllOptions, option domains and effects; pre-set / default wrappers hand their sub-expression
+    AllOptions; pre-set / default wrappers hand their sub-expression
     the overlaid dictionary; each cache id is used with one cached expression, which is in [frag];
     and every dictionary that reaches a cache site is [okd] — well formed and, for every cached
     expression, clean ([clean_at]: present options read are reported by keys(); the zones of
     D1/D3/D4/D9/D19 are excluded), free of stored generators (D21) and satisfying C10's agreement
-    as far as Cached relies on it ([agree_at]).  Holds for every switch configuration [cfg] and
-    every ghost oracle. *)
-Theorem C01_history_transparent : forall u fuel cfg site_ok sites h,
-  hist_ok u fuel sites h ->
+    as far as Cached relies on it ([agree_at]); the effects switch LABREA.EFFECTS.DISABLED has one
+    value [esw] along the history (it is consulted by every Computation without being part of any
+    fingerprint: a value stored with effects off would otherwise be served where a raising effect
+    should fail the evaluation).  Holds for every switch configuration [cfg] and every ghost oracle. *)
+Theorem C01_history_transparent : forall u fuel cfg site_ok sites esw h,
+  hist_ok u fuel sites esw h ->
   run_hist u fuel cfg site_ok h [] = map (ref_op u fuel) h.
 Proof. exact history_transparent_from_empty. Qed.
 Print Assumptions C01_history_transparent.
 
 (** The invariant behind it, for any starting store all of whose entries are correct, and the
     one-step simulation (evaluate, validate and keys at once) it is built from. *)
-Theorem C01_history_transparent_from_sound_store : forall u fuel cfg site_ok sites h s,
-  Sound u fuel sites s -> hist_ok u fuel sites h ->
+Theorem C01_history_transparent_from_sound_store : forall u fuel cfg site_ok sites esw h s,
+  Sound u fuel sites esw s -> hist_ok u fuel sites esw h ->
   run_hist u fuel cfg site_ok h s = map (ref_op u fuel) h.
 Proof. exact history_transparent. Qed.
 Print Assumptions C01_history_transparent_from_sound_store.
 
-Theorem C01_one_step_simulation : forall u fuel cfg site_ok sites e (D : dict -> Prop),
-  scoh u fuel sites e D -> SimAll u fuel cfg site_ok sites e D.
+Theorem C01_one_step_simulation : forall u fuel cfg site_ok sites esw e (D : dict -> Prop),
+  scoh u fuel sites esw e D -> SimAll u fuel cfg site_ok sites esw e D.
 Proof. exact sim_all. Qed.
 Print Assumptions C01_one_step_simulation.
 
@@ -55,11 +57,11 @@ Print Assumptions C01_one_step_simulation.
     (evidence: distribution.theorem_hypotheses) and applies this conclusion to the implementation
     as a strict oracle there.  [sites] is any function agreeing with the cache sites that occur in
     the expressions (each cache id with one cached expression). *)
-Theorem C01_covered_history_transparent : forall u fuel cfg site_ok sites (es : list expr) (h : list hop),
+Theorem C01_covered_history_transparent : forall u fuel cfg site_ok sites esw (es : list expr) (h : list hop),
   (forall c b, sites c = Some b -> In (c, b) (flat_map sites_of es)) ->
   (forall cb, In cb (flat_map sites_of es) -> sites (fst cb) = Some (snd cb)) ->
   (forall p, In p h -> In (hop_expr p) es /\
-                       scohb u fuel (flat_map sites_of es) (hop_expr p) (hop_opts p) = true) ->
+                       scohb u fuel esw (flat_map sites_of es) (hop_expr p) (hop_opts p) = true) ->
   run_hist u fuel cfg site_ok h [] = map (ref_op u fuel) h.
 Proof. exact covered_history_transparent. Qed.
 Print Assumptions C01_covered_history_transparent.
@@ -67,8 +69,8 @@ Print Assumptions C01_covered_history_transparent.
 (** Consequently the switch configuration (labrea.cache.disabled(), labrea.logging.disabled()) and
     the ghost oracle do not enter any result of a covered history: with caching on or off, every
     operation answers alike (C16's value claim for the cache switch, at history level). *)
-Theorem C01_history_independent_of_switches : forall u fuel cfg1 cfg2 so1 so2 sites h,
-  hist_ok u fuel sites h ->
+Theorem C01_history_independent_of_switches : forall u fuel cfg1 cfg2 so1 so2 sites esw h,
+  hist_ok u fuel sites esw h ->
   run_hist u fuel cfg1 so1 h [] = run_hist u fuel cfg2 so2 h [].
 Proof. exact history_independent_of_switches. Qed.
 Print Assumptions C01_history_independent_of_switches.
@@ -82,6 +84,7 @@ Print Assumptions C01_history_independent_of_switches.
 Theorem C01_equal_fingerprint_equal_outcome : forall u fuel e o o' f,
   frag e = true -> wf_dict o = true -> wf_dict o' = true ->
   clean_at u fuel e o = true -> clean_at u fuel e o' = true ->
+  esw_stable u fuel e o -> esw_stable u fuel e o' -> effects_opt_off o' = effects_opt_off o ->
   fingerprintN u fuel e o = Ok f -> fingerprintN u fuel e o' = Ok f ->
   fst (fst (evalN u fuel e o' tt)) = fst (fst (evalN u fuel e o tt)).
 Proof. exact equal_fingerprint_equal_outcome. Qed.
@@ -95,6 +98,9 @@ Theorem C01_same_reported_same_outcome : forall u fuel e o o' K,
   good_keys K -> all_present K o ->
   (forall k, In k K -> lookup k (JObj o') = lookup k (JObj o)) ->
   RR K o (snd (evalN u fuel e o tt)) -> RR K o' (snd (evalN u fuel e o' tt)) ->
+  effects_opt_off (restrict o K) = effects_opt_off o ->
+  effects_opt_off (restrict o' K) = effects_opt_off o' ->
+  effects_opt_off o' = effects_opt_off o ->
   fst (fst (evalN u fuel e o' tt)) = fst (fst (evalN u fuel e o tt)).
 Proof. exact same_reported_same_outcome. Qed.
 Print Assumptions C01_same_reported_same_outcome.
@@ -137,28 +143,30 @@ Definition h0 : list hop :=
    HEval ds0 o1].
 
 (** the dictionaries that reach the cache site are clean for the cached expression *)
-Lemma okd0 o : In o (map inner tops) -> okd u0 10 sites0 o.
+Lemma okd0 o : In o (map inner tops) -> okd u0 10 sites0 false o.
 Proof.
   intros Ho. split.
   - cbn in Ho. repeat (destruct Ho as [<-|Ho]; [reflexivity|]). destruct Ho.
-  - intros c b Hs. unfold sites0 in Hs. destruct (N.eqb c 1); [|discriminate]. inversion Hs; subst b.
+  - split; [cbn in Ho; repeat (destruct Ho as [<-|Ho]; [reflexivity|]); destruct Ho|].
+    intros c b Hs. unfold sites0 in Hs. destruct (N.eqb c 1); [|discriminate]. inversion Hs; subst b.
     cbn in Ho.
     repeat (destruct Ho as [<-|Ho]; [
         split; [vm_compute; reflexivity|];
         split; [split; [|split]; intros; match goal with H : _ = _ |- _ => vm_compute in H end;
                 try discriminate; match goal with H : _ = _ |- _ => inversion H; subst end; vm_compute; reflexivity
-               |intros v H; vm_compute in H; try discriminate; inversion H; reflexivity] |]).
+               |split; [intros v H; vm_compute in H; try discriminate; inversion H; reflexivity
+                       |intros K H; vm_compute in H; try discriminate; inversion H; subst; vm_compute; reflexivity]] |]).
     destruct Ho.
 Qed.
 
-Lemma scoh0 o : In o tops -> scoh u0 10 sites0 ds0 (eq o).
+Lemma scoh0 o : In o tops -> scoh u0 10 sites0 false ds0 (eq o).
 Proof.
   intros Ho. cbn [ds0 scoh]. split; [reflexivity|]. split; [|split; [cbn; repeat split; reflexivity|reflexivity]].
   intros o' (o1' & (o0 & <- & ->) & ->). apply okd0. apply (in_map inner tops o Ho).
 Qed.
 
 Example C01_history_hypotheses_satisfiable :
-  hist_ok u0 10 sites0 h0 /\
+  hist_ok u0 10 sites0 false h0 /\
   run_hist u0 10 cfg0 (clean_at u0 10) h0 [] =
     [OEval (Ok (VJ (JInt 9))); OEval (Ok (VJ (JInt 9))); OKeys (Ok [kB; kA]); OEval (Ok (VJ (JInt 5)));
      OEval (Ok (VJ (JInt 9))); OValidate (Ok tt); OExplain (Ok [kA]); OEval (Ok (VJ (JInt 9)))].
